@@ -65,7 +65,7 @@ func (f *Family) scns(it *Item) []*Scn {
 }
 
 func (f *Family) runItem(it *Item, prefix []int, sig []uint32, trace bool) *Result {
-	return RunScns(vsched.Config{ClockDeviation: f.Clock, Prefix: prefix, PrefixSig: sig, Trace: trace}, f.scns(it)...)
+	return RunScns(vsched.Config{ClockDeviation: f.Clock, Prefix: prefix, PrefixSig: sig, Trace: trace, DelayBounded: len(it.Also) > 0}, f.scns(it)...)
 }
 
 // RunPlain executes an item once on the default schedule (used by oracles that need a reference run).
